@@ -747,6 +747,41 @@ func runC06(c *Ctx) {
 		}
 	}
 
+	// ---- 2c. hostile type strings against TYPED targets that adopt the server's type (Infer runs before the type check):
+	// parentheses in the wrong order, empty pieces, damaged definitions
+	{
+		hostile := []string{")(", "x)(", "DateTime)'UTC'(", "DateTime64)3(", "Enum8)'a'=1(", "Array)Int8(", "Map)String,String(", "Tuple)Int8(", "(", ")", "()", "",
+			"DateTime(", "DateTime64(", "Enum8(", "Map(", "Tuple(", "Array(", "Nullable(", "DateTime64(3", "Enum8('a'=1", "Map(String", "Map(String,", "Map(,)", "Tuple(,)",
+			"DateTime('", "DateTime64(3,'", "Enum8(')", "Enum8('\\", "Map(String, String))", "Map((String, String)", "Tuple(Int8))(", "Array())(", "DateTime64(3, 'UTC'))("}
+		targets := []string{"DateTime", "DateTime64(3)", "Enum8('a' = 1)", "Map(String, String)", "Array(Enum8('a' = 1))", "Nullable(DateTime64(3))", "Tuple(Int8, String)", "Map(String, Array(DateTime))"}
+		for _, ts := range hostile {
+			for ti, tt := range targets {
+				if !c.Thorough && (len(ts)+ti)%3 != 0 {
+					continue
+				}
+				rows := []int{0, 2}[(len(ts)+ti)%2]
+				var e wireEnc
+				e.uvar(1)
+				e.buf = append(e.buf, 0)
+				e.uvar(2)
+				e.buf = append(e.buf, 0xff, 0xff, 0xff, 0xff)
+				e.uvar(0)
+				e.uvar(1)
+				e.uvar(uint64(rows))
+				e.uvar(2)
+				e.buf = append(e.buf, 'c', '0')
+				e.uvar(uint64(len(ts)))
+				e.buf = append(e.buf, ts...)
+				e.buf = append(e.buf, 0)
+				e.buf = append(e.buf, r.Bytes(16*rows)...)
+				cs := map[string]any{"kind": "block", "desc": "hostile type string against a typed target that adopts the server's type", "type_string": ts, "target": tt, "rows": rows, "hex": truncHex(e.buf)}
+				R.Case("hostile-type-typed|"+ts+"|"+tt, true)
+				R.Count("shape:hostile-type-string-typed-target")
+				run(&c06Req{Kind: "block", Rev: 54460, Hex: hx(e.buf), Type: tt}, cs, "")
+			}
+		}
+	}
+
 	// ---- 3. protocol messages
 	nm := 40
 	if c.Thorough {
